@@ -442,6 +442,6 @@ func TestC01(t *testing.T) {
 	if r.Thorough() {
 		r.Exhaustive("enum-pairs", 0, parts["enum-pairs"])
 	}
-	r.Rapid("random", r.N(12000, 200000), c01Random)
-	r.Rapid("server", r.N(1500, 40000), c01Server)
+	r.Rapid("random", r.N(12000, 600000), c01Random)
+	r.Rapid("server", r.N(1500, 100000), c01Server)
 }
